@@ -81,7 +81,8 @@ PROPS = {
                                         gen.gen_parse_cases(seed + 2, 6000 if tier == 'thorough' else 400, 'C04') +
                                         gen.gen_history_cases(seed + 3, 4000 if tier == 'thorough' else 300) +
                                         gen.gen_descr_cases(seed + 4, 4000 if tier == 'thorough' else 300) +
-                                        gen.gen_def_cases(seed + 5, 4000 if tier == 'thorough' else 300)), flavours=['c', 'cxx'],
+                                        gen.gen_def_cases(seed + 5, 4000 if tier == 'thorough' else 300) +
+                                        long_c09_cases(seed + 6, 'quick')), flavours=['c', 'cxx'],
                 rule='hostile stream (arbitrary byte strings and mutated texts as descriptions, 150-1000 character symbol names in every error message, 70-260 terminals with dense/sparse/huge codes, arbitrary int token sequences incl. undeclared and negative codes, extreme setter values, all debug levels) plus samples of every other case family, on the C and the C++ build under ASan+UBSan with real frees and a 20 s watchdog per case; a sanitizer report, abort, non-zero exit or timeout is a violation; message length <= 200',
                 assumptions=['partial by nature: absence of sanitizer reports on the explored inputs, not a proof of memory safety of the pointer code',
                              'Lean carries only the decision logic behind bounds (recovery index arithmetic is validated by the C06/C07 checks, containers by C19)'],
@@ -106,7 +107,7 @@ PROPS = {
                              'which blocks the longjmp unwinding leaks is not judged (leaks are reported as statistics only); partial: memory effects are runtime truth (ASan)',
                              'Lean: Model/Api.lean + apiStep_local (other objects unaffected); the judge applies it to histories with injected failures'],
                 technique='exhaustive single-fault enumeration over allocation indices, judged by the Lean API model'),
-    'C18': dict(level='exploration', theorem_modules=['C01'], min_theorems=4, tags=['C18'], crash_counts=True, runner=None, flavours=['c'],
+    'C18': dict(level='exploration', theorem_modules=['C18'], min_theorems=8, tags=['C18'], crash_counts=True, runner=None, flavours=['c'],
                 rule='left-recursive list, E/T/F arithmetic and the 200-rule ANSI C grammar of test41.c on the tokens of test/test.i (the repo lexer ansic.l), input lengths 1k..16k/32k (thorough: ..512k) doubling, lookahead 0,1,2: bytes requested from the allocator during yaep_parse, hash searches, unique situations / set cores / distance vectors / sets / triples must grow by at most a calibrated factor per doubling (bytes 2.6, searches 3.5, ...), at most 4 hash collisions per search, never more unique sets than tokens, goto-cache hits do not shrink; non-trivial = a (family, lookahead, n -> 2n) pair with both measurements',
                 assumptions=['measured, not proved: hash distribution, allocator behaviour and wall time are outside any model; thresholds calibrated on the unchanged tree with head-room',
                              'hash collisions are judged per search (<= 4 collisions per search + 1000): their growth at small sizes is table warm-up, not superlinear work'],
@@ -351,6 +352,12 @@ def long_c09_cases(seed, tier):
                     for what, v in (('rec', rec), ('la', la), ('debug', dbg)):
                         k += 1; c.append('op %d set 0 %s %d' % (k, what, v))
                     k += 1; c.append('op %d parse 0 user user 12 %s' % (k, ' '.join(map(str, toks))))
+            # dynamic-lookahead contexts are numbered per grammar and survive between parses, the
+            # situation tables are rebuilt per parse: other inputs ask for them in another order
+            for sl in (slice(n // 3, n // 3 + 400), slice(0, 200), slice(len(t) - 700, len(t) - 300), slice(5, 300)):
+                for what, v in (('rec', 0), ('la', 2), ('debug', 0)):
+                    k += 1; c.append('op %d set 0 %s %d' % (k, what, v))
+                k += 1; c.append('op %d parse 0 user user 12 %s' % (k, ' '.join(map(str, t[sl]))))
             c += ['op %d free 0' % (k + 1), 'end']
             cases.append(c)
     for n in ([4000, 16000] + ([128000] if tier == 'thorough' else [])):
